@@ -282,6 +282,7 @@ def run(repo: Repo, ctx) -> None:
 
     # ---- R6 -------------------------------------------------------------------
     _sdl_order(repo, ctx)
+    _r7(repo, ctx)
 
 
 TEXT_OK = {
@@ -341,6 +342,77 @@ def _reach(repo: Repo, m) -> Dict[str, Set[str]]:
                     stack.append(y)
         out[name] = seen
     return out
+
+
+def _r7(repo: Repo, ctx) -> None:
+    from ..absint import Facts, must_pass
+    from ..model import inline_locals
+    ctx.floor('C03.R7', 3)
+    # (a) a function call is looked up in the schema whether or not it is
+    #     module-qualified (std sub-modules are written without `std::`)
+    nf = repo.func(f'{NORM}.normalize_FunctionCall')
+    ctx.saw(nf)
+    g = CFG(nf.node)
+    look = [n.id for n in g.nodes if any(
+        isinstance(c.func, ast.Attribute) and c.func.attr == 'get_functions'
+        for c in g.node_calls(n))]
+    if not look:
+        raise AnalysisError('C03.R7: schema lookup of normalize_FunctionCall '
+                            'not found')
+    for label, facts in (
+            ('qualified', {'isinstance(node.func, str)': False,
+                           'isinstance(node.func, tuple)': True,
+                           'node.func not in localnames': True,
+                           'node.func in localnames': False}),
+            ('unqualified', {'isinstance(node.func, str)': True,
+                             'isinstance(node.func, tuple)': False,
+                             'node.func not in localnames': True,
+                             'node.func in localnames': False})):
+        F = Facts(facts, nf.node)
+        ok = must_pass(g, F, look) and bool(F.used)
+        ctx.ob('C03.R7', f'normalize_FunctionCall:{label}-looked-up', ok,
+               f'a {label} function name is not resolved against the '
+               f'schema: `math::abs(x)` is stored (and DESCRIBEd) as written '
+               f'instead of std::math::abs, and resolves differently in a '
+               f'session that aliases or defines `math`', nf.loc,
+               sample='schema.get_functions(name, module_aliases=..)')
+    # (b) every lookup table of the SDL dependency context that is read is
+    #     also filled
+    from . import c11 as _c11
+    _c11.dep_tables_rule(repo, ctx, 'C03.R7')
+    # (c) whether a field is printed is decided against the recorded old
+    #     value (CREATE deltas built for DESCRIBE have none)
+    af = repo.func('edb.schema.delta.ObjectCommand._apply_fields_ast')
+    ctx.saw(af)
+    cmps = [c for c in ast.walk(af.node) if isinstance(c, ast.Compare)
+            and len(c.ops) == 1 and isinstance(c.ops[0], ast.NotEq)
+            and 'new_value' in norm(c)]
+    if not cmps:
+        raise AnalysisError('C03.R7: value comparison of _apply_fields_ast '
+                            'not found')
+    for c in cmps:
+        other = c.left if 'new_value' in norm(c.comparators[0]) \
+            else c.comparators[0]
+        defs = [norm(a.value) for a in ast.walk(af.node)
+                if isinstance(a, ast.Assign) and norm(a.targets[0]) ==
+                norm(other)]
+        ok = norm(other) == 'fop.old_value' or (
+            defs and all('get_default' not in d for d in defs))
+        ctx.ob('C03.R7', '_apply_fields_ast:old-value-as-recorded', ok,
+               f'a field is left out of the DDL when its new value equals '
+               f'`{norm(other)}` ({defs}): with the default substituted for '
+               f'a missing old value, a field explicitly set to its default '
+               f'is not printed, and on replay the object inherits a '
+               f'different value from its parent', af.loc,
+               sample='fop.old_value != new_value')
+
+
+def _parent_of(root: ast.AST, node: ast.AST):
+    for p in ast.walk(root):
+        for c in ast.iter_child_nodes(p):
+            if c is node:
+                return p
+    return None
 
 
 def _sdl_order(repo: Repo, ctx) -> None:
